@@ -406,7 +406,7 @@ QUESTIONS = {0: "analysed files", 1: "plugin files", 2: "definition flags (third
 def run(r):
     quick = r.tier == "quick"
     proof_ok = runner.proof_stage(r)
-    n = int(os.environ.get("VERIF_CASES", 40 if quick else 800))
+    n = int(os.environ.get("VERIF_CASES", 100 if quick else 800))
     seeds = [r.seed * 100000 + 14 + i for i in range(n)]
     corpus = load_corpus()
     del HANGS[:]
